@@ -225,7 +225,7 @@ def range_tables(run):
             if sw2:
                 treg = T.dominated_region(h, sw2[0], t["target"])
                 freg = T.dominated_region(h, sw2[1], t["target"])
-                ok = all(b in treg for b in fc) and all(b in freg for b, d in size_store) and all(d == "param:size" for b, d in size_store)
+                ok = all(b in treg for b in fc) and all(b in freg for b, d in size_store) and all(re.match(r"^param:\w+$", d) and _is_usize_param(h, d) for b, d in size_store)
         run.check(ok, R, R + "|constrain", h.loc(), "a value failing the predicate becomes FailedConstraint; a passing value gets size = Some(N)",
                   "check_and_constrain_value_for_integer_type no longer maps failure to FailedConstraint and success to size = Some(N)")
     # every expression argument bound to a rule parameter went through the check
@@ -275,6 +275,12 @@ def min_size_shape(run):
         rets = [describe_origin(g, g.origin_op(st["rv"]["op"])) for bi, si, st in g.stmts() if st["k"] == "assign" and st["place"]["l"] == 0 and st["rv"]["k"] == "use"]
         run.check(ok and any(".size@Some" in d or "size" in d for d in rets), R, R + "|size_or_min_size", g.loc(),
                   "size_or_min_size: the declared size if any, else min_size", "size_or_min_size no longer returns the declared size or else min_size")
+
+
+def _is_usize_param(h, d):
+    """d = `param:<name>`: a usize parameter of h (the declared width), whatever it is called"""
+    nm = d.split(":", 1)[1]
+    return any(h.local_name(i) == nm and h.local_ty(i) == "usize" for i in range(1, h.arg_count + 1))
 
 
 def data_width(run):
